@@ -86,7 +86,10 @@ extern int mpt_output_vlog(MPT_INTERFACE(output) *out, const char *from, int typ
 		else if (from) {
 			buf[len++] = 0x3; /* ETX, message complete */
 		}
-		out->_vptr->push(out, len, buf);
+		/* empty data would terminate the message */
+		if (len) {
+			out->_vptr->push(out, len, buf);
+		}
 	}
 	out->_vptr->push(out, 0, 0);
 	
